@@ -289,7 +289,7 @@ CHECK = Check(
             teardown=lambda x: _c03("teardown")(x),
             nontrivial=lambda c, o: C.jdump(c),
             describe=lambda c, o: f"nref={c['nref']}",
-            rule="--no_replacement over reference panels of 260-520 samples of which the model's populations hold ten (in the last columns, beyond 256): the stretches that the bookkeeping hands out sample by sample are the stretches copied only if every copied allele is one the named reference sample carries at that variant (oracle of C03/big_panel)",
+            rule="--no_replacement over reference panels of 260-520 samples of which the model's populations hold 24 (in the last columns, beyond 256; a run that exhausts them may refuse): the stretches that the bookkeeping hands out sample by sample are the stretches copied only if every copied allele is one the named reference sample carries at that variant (oracle of C03/big_panel)",
         ),
         Section(
             name="validate_panel_size",
